@@ -771,7 +771,14 @@ pub fn op_elg(a: &[&str]) -> String {
             let (Some(b), Some(s), Ok(i)) = (unhex(h), scalar(s), i.parse::<usize>()) else { return bad() };
             let sk = ElGamalSecretKey::from(s);
             macro_rules! gdec { ($n:expr) => { match GroupedElGamalCiphertext::<$n>::from_bytes(&b) {
-                Some(g) => match g.decrypt(&sk, i) { Ok(d) => okhex(d.target.compress().as_bytes()), Err(_) => "err".into() },
+                Some(g) => {
+                    // the 32-bit entry point refuses exactly the indices the instance-returning one refuses
+                    let e32 = g.decrypt_u32(&sk, i).is_err();
+                    match g.decrypt(&sk, i) {
+                        Ok(d) => if e32 { "variant-mismatch:decrypt_u32-refused".into() } else { okhex(d.target.compress().as_bytes()) },
+                        Err(_) => if e32 { "err".into() } else { "variant-mismatch:decrypt_u32-accepted".into() },
+                    }
+                }
                 None => bad() } } }
             match *n { "0" => gdec!(0), "1" => gdec!(1), "2" => gdec!(2), "3" => gdec!(3), _ => bad() }
         }
@@ -806,6 +813,21 @@ pub fn op_ae(a: &[&str]) -> String {
                     match r1 { Some(x) => format!("some:{}", x), None => "none".into() }
                 }
             }
+        }
+        ["soak", key, n] => {
+            // many fresh encryptions under one key, each opened directly and through its byte form: an encryptor that
+            // goes wrong for a small fraction of its own random nonces is only seen by volume
+            let (Some(k), Ok(n)) = (unhex(key), n.parse::<u64>()) else { return "bad-op".into() };
+            let Ok(k) = AeKey::try_from(k.as_slice()) else { return "bad-op".into() };
+            for i in 0..n {
+                let amount = i.wrapping_mul(0x9e3779b97f4a7c15) ^ (i << 40);
+                let ct = k.encrypt(amount);
+                if k.decrypt(&ct) != Some(amount) { return format!("undecryptable:#{}:{}", i, hex(&ct.to_bytes())) }
+                if i % 16 == 0 {
+                    match AeCiphertext::from_bytes(&ct.to_bytes()) { Some(c) if k.decrypt(&c) == Some(amount) => {}, _ => return format!("undecryptable-bytes:#{}", i) }
+                }
+            }
+            "ok".into()
         }
         [seq, toks @ ..] if *seq == "seq" => {
             // one thread, in order; a key is also used to encrypt in between (anything cached per key is exercised)
